@@ -101,7 +101,7 @@ def initKind (k : Kind) (c : Cfg) (ls : List Line) (hosts : List Name) (envCpus 
     else .ok (getNodeList (parseNodefile ls c.cpn 1) c.gpn, c.cpn)
   | .pbspro =>          -- qstat not available: node file fallback
     if c.cpn = 0 then .error .runtime
-    else .ok (getNodeList (parseNodefile ls c.cpn c.smt) c.gpn, c.cpn)
+    else .ok (getNodeList (parseNodefile ls c.cpn 1) c.gpn, c.cpn)
   | .lsf =>
     match coresPerNode ((parseNodefile ls 0 c.smt).filter
             (fun e => !e.1.login && !e.1.batch && e.2 ≠ c.smt)) with
@@ -116,6 +116,8 @@ def initKind (k : Kind) (c : Cfg) (ls : List Line) (hosts : List Name) (envCpus 
     | some n => .ok (getNodeList (hosts.map (fun h => (h, n))) c.gpn, n)
   | .fork =>
     -- fake_resources: n identical 'localhost' nodes
+    if c.requestedNodes = 0 ∧ c.requestedGpus ≠ 0 ∧ c.gpn = 0 then .error .runtime   -- ZeroDivisionError
+    else
     (fun cpn : Nat =>
       (fun rn : Nat => Except.ok (getNodeList (List.replicate (rn + c.backup) ({ id := 0 }, cpn)) c.gpn, cpn))
         (if c.requestedNodes ≠ 0 then c.requestedNodes
@@ -145,47 +147,62 @@ def popN : List Node → Nat → List Node × List Node
       match popN l.dropLast k with
       | (rest, popped) => (rest, x :: popped)
 
-/-- everything `_init_from_scratch` does after the RM specific part.
-    `reach`: result of the ssh probe per node (only consulted with backup nodes) -/
-def finish (c : Cfg) (nodes : List Node) (cpn : Nat) (reach : List Bool) : Except Err Info :=
+/-- blocked cores / GPUs are marked DOWN on every node -/
+def blockNodes (c : Cfg) (nodes : List Node) : List Node :=
+  nodes.map (fun n => { name := n.name, index := n.index,
+                        cores := markDown n.cores c.blockedCores, gpus := markDown n.gpus c.blockedGpus })
+
+/-- `rm_info.cores_per_node` / `gpus_per_node` after subtracting the blocked ones -/
+def usableCores (c : Cfg) (cpn : Nat) : Nat :=
+  if c.blockedCores ≠ [] ∨ c.blockedGpus ≠ [] then cpn - c.blockedCores.length else cpn
+
+def usableGpus (c : Cfg) : Nat :=
+  if c.blockedCores ≠ [] ∨ c.blockedGpus ≠ [] then c.gpn - c.blockedGpus.length else c.gpn
+
+/-- `requested_nodes`, derived from cores/GPUs when not given -/
+def reqNodes (c : Cfg) (cpn : Nat) : Nat :=
+  if c.requestedNodes ≠ 0 then c.requestedNodes
+  else if usableCores c cpn = 0 then 0
+  else max ((c.requestedCores + usableCores c cpn - 1) / usableCores c cpn)
+           (if usableGpus c ≠ 0 then (c.requestedGpus + usableGpus c - 1) / usableGpus c else 0)
+
+/-- the ssh probe of `_filter_nodes` (only with backup nodes); `reach`: ids of the hosts that answer -/
+def reachable (c : Cfg) (nodes : List Node) (reach : List Nat) : List Node :=
+  if c.backup ≠ 0 then nodes.filter (fun n => n.name.id ∈ reach) else nodes
+
+def blockedInRange (c : Cfg) (nodes : List Node) : Bool :=
+  c.blockedCores.all (fun i => nodes.all (fun n => i < n.cores.length))
+  && c.blockedGpus.all (fun i => nodes.all (fun n => i < n.gpus.length))
+
+/-- everything `_init_from_scratch` does after the RM specific part. -/
+def finish (c : Cfg) (nodes : List Node) (cpn : Nat) (reach : List Nat) : Except Err Info :=
   if cpn = 0 then .error .assertion      -- rm_info.verify()
-  else if ¬ (c.blockedCores.all (fun i => nodes.all (fun n => i < n.cores.length))
-             ∧ c.blockedGpus.all (fun i => nodes.all (fun n => i < n.gpus.length))) then .error .assertion
+  else if blockedInRange c nodes = false then .error .assertion
+  else if usableCores c cpn = 0 then .error .assertion        -- ZeroDivisionError / rm_info.verify()
+  else if reqNodes c cpn > (blockNodes c nodes).length then .error .assertion
+  else if c.backup ≠ 0 ∧ reachable c (blockNodes c nodes) reach = [] then .error .runtime
+  else if c.agentNodes + c.serviceNodes ≥ ((reachable c (blockNodes c nodes) reach).take (reqNodes c cpn)).length then
+    .error .runtime
+  else if reqNodes c cpn = 0 then .error .assertion
   else
-    (fun (nodes1 : List Node) (cpn1 gpn1 : Nat) =>
-      (fun (rn : Nat) =>
-        if rn > nodes1.length then .error .assertion
-        else
-          (fun (ok : List Node) =>
-            if c.backup ≠ 0 ∧ ok = [] then .error .runtime
-            else
-              (fun (cut : List Node) =>
-                if c.agentNodes + c.serviceNodes ≥ cut.length then .error .runtime
-                else if rn = 0 then .error .assertion
-                else
-                  match popN cut c.agentNodes with
-                  | (rest, ag) =>
-                    match popN rest c.serviceNodes with
-                    | (rest2, sv) =>
-                      .ok { nodeList := rest2, agentNodes := ag, serviceNodes := sv,
-                            requestedNodes := rn, coresPerNode := cpn1, gpusPerNode := gpn1 })
-                (ok.take rn))
-            (if c.backup ≠ 0 then (nodes1.zip (reach ++ List.replicate nodes1.length false)).filterMap
-                                     (fun p => if p.2 then some p.1 else none)
-             else nodes1))
-        (if c.requestedNodes ≠ 0 then c.requestedNodes
-         else if cpn1 = 0 then 0
-         else max ((c.requestedCores + cpn1 - 1) / cpn1)
-                  (if gpn1 ≠ 0 then (c.requestedGpus + gpn1 - 1) / gpn1 else 0)))
-      (nodes.map (fun n => { n with cores := markDown n.cores c.blockedCores,
-                                    gpus := markDown n.gpus c.blockedGpus }))
-      (if c.blockedCores ≠ [] ∨ c.blockedGpus ≠ [] then cpn - c.blockedCores.length else cpn)
-      (if c.blockedCores ≠ [] ∨ c.blockedGpus ≠ [] then c.gpn - c.blockedGpus.length else c.gpn)
+    .ok { nodeList := (popN (popN ((reachable c (blockNodes c nodes) reach).take (reqNodes c cpn)) c.agentNodes).1 c.serviceNodes).1,
+          agentNodes := (popN ((reachable c (blockNodes c nodes) reach).take (reqNodes c cpn)) c.agentNodes).2,
+          serviceNodes := (popN (popN ((reachable c (blockNodes c nodes) reach).take (reqNodes c cpn)) c.agentNodes).1 c.serviceNodes).2,
+          requestedNodes := reqNodes c cpn, coresPerNode := usableCores c cpn, gpusPerNode := usableGpus c }
+
+/-- Fork fixes `requested_nodes` itself (from the node size before blocked cores are subtracted) -/
+def forkRequested (c : Cfg) (cpn : Nat) : Nat :=
+  if c.requestedNodes ≠ 0 then c.requestedNodes
+  else max ((c.requestedCores + cpn - 1) / cpn)
+           (if c.requestedGpus ≠ 0 ∧ c.gpn ≠ 0 then (c.requestedGpus + c.gpn - 1) / c.gpn else 0)
 
 def initRM (k : Kind) (c : Cfg) (ls : List Line) (hosts : List Name) (envCpus : Option Nat)
-    (detected : Nat) (reach : List Bool) : Except Err Info :=
+    (detected : Nat) (reach : List Nat) : Except Err Info :=
   match initKind k c ls hosts envCpus detected with
   | .error e => .error e
-  | .ok (nodes, cpn) => if nodes = [] then .error .assertion else finish c nodes cpn reach
+  | .ok (nodes, cpn) =>
+    if nodes = [] then .error .assertion
+    else if k = .fork then finish { c with requestedNodes := forkRequested c cpn } nodes cpn reach
+    else finish c nodes cpn reach
 
 end RPVerif.RM
